@@ -566,209 +566,206 @@ pub(crate) mod verif_c01 {
     // ---- E. the entry-point macro impl_serialize_body! instantiated on an instrumented inner serializer ---------
     // (json::Serializer and smile::Serializer are exactly this macro applied to serde_json's / serde_smile's
     // serializer with their ValueBehavior; the obligations below hold for the macro text, whatever the inner type)
-    pub mod entry {
-        use super::*;
-        use serde::ser;
-        // the macro names `ValueBehavior` literally in its associated types
-        pub use super::VB as ValueBehavior;
+    use serde::ser;
+    // the macro names `ValueBehavior` literally in its associated types
+    pub use self::VB as ValueBehavior;
 
-        pub struct SinkM;
-        macro_rules! fwd {
-            ($($name:ident = $t:ty,)*) => {
-                $(fn $name(self, v: $t) -> Result<(), E> { Sink.$name(v) })*
-            };
+    pub struct SinkM;
+    macro_rules! fwd {
+        ($($name:ident = $t:ty,)*) => {
+            $(fn $name(self, v: $t) -> Result<(), E> { Sink.$name(v) })*
+        };
+    }
+    impl<'a> ser::Serializer for &'a mut SinkM {
+        type Ok = ();
+        type Error = E;
+        type SerializeSeq = Comp;
+        type SerializeTuple = Comp;
+        type SerializeTupleStruct = Comp;
+        type SerializeTupleVariant = Comp;
+        type SerializeMap = Comp;
+        type SerializeStruct = Comp;
+        type SerializeStructVariant = Comp;
+        fwd! {
+            serialize_bool = bool, serialize_i8 = i8, serialize_i16 = i16, serialize_i32 = i32, serialize_i64 = i64,
+            serialize_i128 = i128, serialize_u8 = u8, serialize_u16 = u16, serialize_u32 = u32, serialize_u64 = u64,
+            serialize_u128 = u128, serialize_f32 = f32, serialize_f64 = f64, serialize_char = char, serialize_str = &str,
+            serialize_bytes = &[u8],
         }
-        impl<'a> ser::Serializer for &'a mut SinkM {
-            type Ok = ();
-            type Error = E;
-            type SerializeSeq = Comp;
-            type SerializeTuple = Comp;
-            type SerializeTupleStruct = Comp;
-            type SerializeTupleVariant = Comp;
-            type SerializeMap = Comp;
-            type SerializeStruct = Comp;
-            type SerializeStructVariant = Comp;
-            fwd! {
-                serialize_bool = bool, serialize_i8 = i8, serialize_i16 = i16, serialize_i32 = i32, serialize_i64 = i64,
-                serialize_i128 = i128, serialize_u8 = u8, serialize_u16 = u16, serialize_u32 = u32, serialize_u64 = u64,
-                serialize_u128 = u128, serialize_f32 = f32, serialize_f64 = f64, serialize_char = char, serialize_str = &str,
-                serialize_bytes = &[u8],
+        fn serialize_none(self) -> Result<(), E> { Sink.serialize_none() }
+        fn serialize_some<T: ?Sized + Serialize>(self, v: &T) -> Result<(), E> { Sink.serialize_some(v) }
+        fn serialize_unit(self) -> Result<(), E> { Sink.serialize_unit() }
+        fn serialize_unit_struct(self, n: &'static str) -> Result<(), E> { Sink.serialize_unit_struct(n) }
+        fn serialize_unit_variant(self, n: &'static str, i: u32, v: &'static str) -> Result<(), E> { Sink.serialize_unit_variant(n, i, v) }
+        fn serialize_newtype_struct<T: ?Sized + Serialize>(self, n: &'static str, v: &T) -> Result<(), E> { Sink.serialize_newtype_struct(n, v) }
+        fn serialize_newtype_variant<T: ?Sized + Serialize>(self, n: &'static str, i: u32, va: &'static str, v: &T) -> Result<(), E> { Sink.serialize_newtype_variant(n, i, va, v) }
+        fn serialize_seq(self, len: Option<usize>) -> Result<Comp, E> { Sink.serialize_seq(len) }
+        fn serialize_tuple(self, len: usize) -> Result<Comp, E> { Sink.serialize_tuple(len) }
+        fn serialize_tuple_struct(self, n: &'static str, len: usize) -> Result<Comp, E> { Sink.serialize_tuple_struct(n, len) }
+        fn serialize_tuple_variant(self, n: &'static str, i: u32, va: &'static str, len: usize) -> Result<Comp, E> { Sink.serialize_tuple_variant(n, i, va, len) }
+        fn serialize_map(self, len: Option<usize>) -> Result<Comp, E> { Sink.serialize_map(len) }
+        fn serialize_struct(self, n: &'static str, len: usize) -> Result<Comp, E> { Sink.serialize_struct(n, len) }
+        fn serialize_struct_variant(self, n: &'static str, i: u32, va: &'static str, len: usize) -> Result<Comp, E> { Sink.serialize_struct_variant(n, i, va, len) }
+    }
+
+    pub struct Entry(pub SinkM);
+    impl<'a> ser::Serializer for &'a mut Entry {
+        impl_serialize_body!(&'a mut SinkM, ValueBehavior);
+    }
+
+    fn hook_then_raw(d: f64, i: usize) -> bool {
+        at(i) == Ev::HookF64(d.to_bits()) && at(i + 1) == Ev::F64(d.to_bits())
+    }
+
+    #[kani::proof]
+    fn entry_scalars() {
+        let mut e = Entry(SinkM);
+        let b: bool = kani::any();
+        reset();
+        assert!(ser::Serializer::serialize_bool(&mut e, b).is_ok());
+        assert!(n() == 2 && at(0) == Ev::HookBool(b) && at(1) == Ev::Bool(b));
+        let f: f32 = kani::any();
+        reset();
+        assert!(ser::Serializer::serialize_f32(&mut e, f).is_ok());
+        assert!(n() == 2 && at(0) == Ev::HookF32(f.to_bits()) && at(1) == Ev::F32(f.to_bits()));
+        let d: f64 = kani::any();
+        reset();
+        assert!(ser::Serializer::serialize_f64(&mut e, d).is_ok());
+        assert!(n() == 2 && hook_then_raw(d, 0));
+        let by: [u8; 2] = kani::any();
+        reset();
+        assert!(ser::Serializer::serialize_bytes(&mut e, &by).is_ok());
+        assert!(n() == 2 && at(0) == Ev::HookBytes(2) && at(1) == Ev::Bytes(2, by[0]));
+        kani::cover!(true);
+    }
+
+    macro_rules! entry_forward {
+        ($name:ident, $method:ident, $t:ty, $ev:expr) => {
+            #[kani::proof]
+            fn $name() {
+                let mut e = Entry(SinkM);
+                let v: $t = kani::any();
+                reset();
+                assert!(ser::Serializer::$method(&mut e, v).is_ok());
+                assert!(n() == 1 && at(0) == $ev(v));
+                kani::cover!(true);
             }
-            fn serialize_none(self) -> Result<(), E> { Sink.serialize_none() }
-            fn serialize_some<T: ?Sized + Serialize>(self, v: &T) -> Result<(), E> { Sink.serialize_some(v) }
-            fn serialize_unit(self) -> Result<(), E> { Sink.serialize_unit() }
-            fn serialize_unit_struct(self, n: &'static str) -> Result<(), E> { Sink.serialize_unit_struct(n) }
-            fn serialize_unit_variant(self, n: &'static str, i: u32, v: &'static str) -> Result<(), E> { Sink.serialize_unit_variant(n, i, v) }
-            fn serialize_newtype_struct<T: ?Sized + Serialize>(self, n: &'static str, v: &T) -> Result<(), E> { Sink.serialize_newtype_struct(n, v) }
-            fn serialize_newtype_variant<T: ?Sized + Serialize>(self, n: &'static str, i: u32, va: &'static str, v: &T) -> Result<(), E> { Sink.serialize_newtype_variant(n, i, va, v) }
-            fn serialize_seq(self, len: Option<usize>) -> Result<Comp, E> { Sink.serialize_seq(len) }
-            fn serialize_tuple(self, len: usize) -> Result<Comp, E> { Sink.serialize_tuple(len) }
-            fn serialize_tuple_struct(self, n: &'static str, len: usize) -> Result<Comp, E> { Sink.serialize_tuple_struct(n, len) }
-            fn serialize_tuple_variant(self, n: &'static str, i: u32, va: &'static str, len: usize) -> Result<Comp, E> { Sink.serialize_tuple_variant(n, i, va, len) }
-            fn serialize_map(self, len: Option<usize>) -> Result<Comp, E> { Sink.serialize_map(len) }
-            fn serialize_struct(self, n: &'static str, len: usize) -> Result<Comp, E> { Sink.serialize_struct(n, len) }
-            fn serialize_struct_variant(self, n: &'static str, i: u32, va: &'static str, len: usize) -> Result<Comp, E> { Sink.serialize_struct_variant(n, i, va, len) }
-        }
+        };
+    }
+    entry_forward!(entry_i8, serialize_i8, i8, Ev::I8);
+    entry_forward!(entry_i16, serialize_i16, i16, Ev::I16);
+    entry_forward!(entry_i32, serialize_i32, i32, Ev::I32);
+    entry_forward!(entry_i64, serialize_i64, i64, Ev::I64);
+    entry_forward!(entry_i128, serialize_i128, i128, Ev::I128);
+    entry_forward!(entry_u8, serialize_u8, u8, Ev::U8);
+    entry_forward!(entry_u16, serialize_u16, u16, Ev::U16);
+    entry_forward!(entry_u32, serialize_u32, u32, Ev::U32);
+    entry_forward!(entry_u64, serialize_u64, u64, Ev::U64);
+    entry_forward!(entry_u128, serialize_u128, u128, Ev::U128);
+    entry_forward!(entry_char, serialize_char, char, Ev::Char);
 
-        pub struct Entry(pub SinkM);
-        impl<'a> ser::Serializer for &'a mut Entry {
-            impl_serialize_body!(&'a mut SinkM, ValueBehavior);
-        }
+    #[kani::proof]
+    fn entry_str_none_unit_names() {
+        let mut e = Entry(SinkM);
+        reset();
+        assert!(ser::Serializer::serialize_str(&mut e, "ab").is_ok());
+        assert!(n() == 1 && at(0) == Ev::Str(2, b'a'));
+        reset();
+        assert!(ser::Serializer::serialize_none(&mut e).is_ok());
+        assert!(n() == 1 && at(0) == Ev::None_);
+        reset();
+        assert!(ser::Serializer::serialize_unit(&mut e).is_ok());
+        assert!(n() == 1 && at(0) == Ev::Unit);
+        reset();
+        assert!(ser::Serializer::serialize_unit_struct(&mut e, "Name").is_ok());
+        assert!(n() == 1 && at(0) == Ev::UnitStruct(4));
+        let i: u32 = kani::any();
+        reset();
+        assert!(ser::Serializer::serialize_unit_variant(&mut e, "Name", i, "Var").is_ok());
+        assert!(n() == 1 && at(0) == Ev::UnitVariant(i, 3));
+        kani::cover!(true);
+    }
 
-        fn hook_then_raw(d: f64, i: usize) -> bool {
-            at(i) == Ev::HookF64(d.to_bits()) && at(i + 1) == Ev::F64(d.to_bits())
-        }
+    #[kani::proof]
+    fn entry_single_value_wrappers() {
+        let mut e = Entry(SinkM);
+        let d: f64 = kani::any();
+        let i: u32 = kani::any();
+        reset();
+        assert!(ser::Serializer::serialize_some(&mut e, &d).is_ok());
+        assert!(n() == 3 && at(0) == Ev::Some_ && hook_then_raw(d, 1));
+        reset();
+        assert!(ser::Serializer::serialize_newtype_struct(&mut e, "Nm", &d).is_ok());
+        assert!(n() == 3 && at(0) == Ev::NewtypeStruct(2) && hook_then_raw(d, 1));
+        reset();
+        assert!(ser::Serializer::serialize_newtype_variant(&mut e, "Nm", i, "Var", &d).is_ok());
+        assert!(n() == 3 && at(0) == Ev::NewtypeVariant(i, 3) && hook_then_raw(d, 1));
+        kani::cover!(true);
+    }
 
-        #[kani::proof]
-        fn entry_scalars() {
-            let mut e = Entry(SinkM);
-            let b: bool = kani::any();
-            reset();
-            assert!(ser::Serializer::serialize_bool(&mut e, b).is_ok());
-            assert!(n() == 2 && at(0) == Ev::HookBool(b) && at(1) == Ev::Bool(b));
-            let f: f32 = kani::any();
-            reset();
-            assert!(ser::Serializer::serialize_f32(&mut e, f).is_ok());
-            assert!(n() == 2 && at(0) == Ev::HookF32(f.to_bits()) && at(1) == Ev::F32(f.to_bits()));
-            let d: f64 = kani::any();
-            reset();
-            assert!(ser::Serializer::serialize_f64(&mut e, d).is_ok());
-            assert!(n() == 2 && hook_then_raw(d, 0));
-            let by: [u8; 2] = kani::any();
-            reset();
-            assert!(ser::Serializer::serialize_bytes(&mut e, &by).is_ok());
-            assert!(n() == 2 && at(0) == Ev::HookBytes(2) && at(1) == Ev::Bytes(2, by[0]));
-            kani::cover!(true);
-        }
+    #[kani::proof]
+    fn entry_sequences() {
+        let mut e = Entry(SinkM);
+        let d: f64 = kani::any();
+        let len: usize = kani::any();
+        let olen: Option<usize> = kani::any();
+        let i: u32 = kani::any();
+        reset();
+        let mut s = ser::Serializer::serialize_seq(&mut e, olen).unwrap();
+        assert!(n() == 1 && at(0) == Ev::Seq(olen));
+        reset();
+        assert!(SerializeSeq::serialize_element(&mut s, &d).is_ok());
+        assert!(n() == 3 && at(0) == Ev::Elem && hook_then_raw(d, 1));
+        reset();
+        let mut s = ser::Serializer::serialize_tuple(&mut e, len).unwrap();
+        assert!(n() == 1 && at(0) == Ev::Tuple(len));
+        reset();
+        assert!(SerializeTuple::serialize_element(&mut s, &d).is_ok());
+        assert!(n() == 3 && at(0) == Ev::Elem && hook_then_raw(d, 1));
+        reset();
+        let mut s = ser::Serializer::serialize_tuple_struct(&mut e, "Nm", len).unwrap();
+        assert!(n() == 1 && at(0) == Ev::TupleStruct(2, len));
+        reset();
+        assert!(SerializeTupleStruct::serialize_field(&mut s, &d).is_ok());
+        assert!(n() == 3 && at(0) == Ev::Elem && hook_then_raw(d, 1));
+        reset();
+        let mut s = ser::Serializer::serialize_tuple_variant(&mut e, "Nm", i, "Var", len).unwrap();
+        assert!(n() == 1 && at(0) == Ev::TupleVariant(i, len));
+        reset();
+        assert!(SerializeTupleVariant::serialize_field(&mut s, &d).is_ok());
+        assert!(n() == 3 && at(0) == Ev::Elem && hook_then_raw(d, 1));
+        kani::cover!(true);
+    }
 
-        macro_rules! entry_forward {
-            ($name:ident, $method:ident, $t:ty, $ev:expr) => {
-                #[kani::proof]
-                fn $name() {
-                    let mut e = Entry(SinkM);
-                    let v: $t = kani::any();
-                    reset();
-                    assert!(ser::Serializer::$method(&mut e, v).is_ok());
-                    assert!(n() == 1 && at(0) == $ev(v));
-                    kani::cover!(true);
-                }
-            };
-        }
-        entry_forward!(entry_i8, serialize_i8, i8, Ev::I8);
-        entry_forward!(entry_i16, serialize_i16, i16, Ev::I16);
-        entry_forward!(entry_i32, serialize_i32, i32, Ev::I32);
-        entry_forward!(entry_i64, serialize_i64, i64, Ev::I64);
-        entry_forward!(entry_i128, serialize_i128, i128, Ev::I128);
-        entry_forward!(entry_u8, serialize_u8, u8, Ev::U8);
-        entry_forward!(entry_u16, serialize_u16, u16, Ev::U16);
-        entry_forward!(entry_u32, serialize_u32, u32, Ev::U32);
-        entry_forward!(entry_u64, serialize_u64, u64, Ev::U64);
-        entry_forward!(entry_u128, serialize_u128, u128, Ev::U128);
-        entry_forward!(entry_char, serialize_char, char, Ev::Char);
-
-        #[kani::proof]
-        fn entry_str_none_unit_names() {
-            let mut e = Entry(SinkM);
-            reset();
-            assert!(ser::Serializer::serialize_str(&mut e, "ab").is_ok());
-            assert!(n() == 1 && at(0) == Ev::Str(2, b'a'));
-            reset();
-            assert!(ser::Serializer::serialize_none(&mut e).is_ok());
-            assert!(n() == 1 && at(0) == Ev::None_);
-            reset();
-            assert!(ser::Serializer::serialize_unit(&mut e).is_ok());
-            assert!(n() == 1 && at(0) == Ev::Unit);
-            reset();
-            assert!(ser::Serializer::serialize_unit_struct(&mut e, "Name").is_ok());
-            assert!(n() == 1 && at(0) == Ev::UnitStruct(4));
-            let i: u32 = kani::any();
-            reset();
-            assert!(ser::Serializer::serialize_unit_variant(&mut e, "Name", i, "Var").is_ok());
-            assert!(n() == 1 && at(0) == Ev::UnitVariant(i, 3));
-            kani::cover!(true);
-        }
-
-        #[kani::proof]
-        fn entry_single_value_wrappers() {
-            let mut e = Entry(SinkM);
-            let d: f64 = kani::any();
-            let i: u32 = kani::any();
-            reset();
-            assert!(ser::Serializer::serialize_some(&mut e, &d).is_ok());
-            assert!(n() == 3 && at(0) == Ev::Some_ && hook_then_raw(d, 1));
-            reset();
-            assert!(ser::Serializer::serialize_newtype_struct(&mut e, "Nm", &d).is_ok());
-            assert!(n() == 3 && at(0) == Ev::NewtypeStruct(2) && hook_then_raw(d, 1));
-            reset();
-            assert!(ser::Serializer::serialize_newtype_variant(&mut e, "Nm", i, "Var", &d).is_ok());
-            assert!(n() == 3 && at(0) == Ev::NewtypeVariant(i, 3) && hook_then_raw(d, 1));
-            kani::cover!(true);
-        }
-
-        #[kani::proof]
-        fn entry_sequences() {
-            let mut e = Entry(SinkM);
-            let d: f64 = kani::any();
-            let len: usize = kani::any();
-            let olen: Option<usize> = kani::any();
-            let i: u32 = kani::any();
-            reset();
-            let mut s = ser::Serializer::serialize_seq(&mut e, olen).unwrap();
-            assert!(n() == 1 && at(0) == Ev::Seq(olen));
-            reset();
-            assert!(SerializeSeq::serialize_element(&mut s, &d).is_ok());
-            assert!(n() == 3 && at(0) == Ev::Elem && hook_then_raw(d, 1));
-            reset();
-            let mut s = ser::Serializer::serialize_tuple(&mut e, len).unwrap();
-            assert!(n() == 1 && at(0) == Ev::Tuple(len));
-            reset();
-            assert!(SerializeTuple::serialize_element(&mut s, &d).is_ok());
-            assert!(n() == 3 && at(0) == Ev::Elem && hook_then_raw(d, 1));
-            reset();
-            let mut s = ser::Serializer::serialize_tuple_struct(&mut e, "Nm", len).unwrap();
-            assert!(n() == 1 && at(0) == Ev::TupleStruct(2, len));
-            reset();
-            assert!(SerializeTupleStruct::serialize_field(&mut s, &d).is_ok());
-            assert!(n() == 3 && at(0) == Ev::Elem && hook_then_raw(d, 1));
-            reset();
-            let mut s = ser::Serializer::serialize_tuple_variant(&mut e, "Nm", i, "Var", len).unwrap();
-            assert!(n() == 1 && at(0) == Ev::TupleVariant(i, len));
-            reset();
-            assert!(SerializeTupleVariant::serialize_field(&mut s, &d).is_ok());
-            assert!(n() == 3 && at(0) == Ev::Elem && hook_then_raw(d, 1));
-            kani::cover!(true);
-        }
-
-        #[kani::proof]
-        fn entry_maps_and_structs() {
-            let mut e = Entry(SinkM);
-            let d: f64 = kani::any();
-            let b: bool = kani::any();
-            let len: usize = kani::any();
-            let olen: Option<usize> = kani::any();
-            let i: u32 = kani::any();
-            reset();
-            let mut m = ser::Serializer::serialize_map(&mut e, olen).unwrap();
-            assert!(n() == 1 && at(0) == Ev::Map(olen));
-            reset();
-            assert!(SerializeMap::serialize_key(&mut m, &b).is_ok());
-            assert!(n() == 3 && at(0) == Ev::Key && at(1) == Ev::KeyHookBool(b) && at(2) == Ev::Bool(b));
-            reset();
-            assert!(SerializeMap::serialize_value(&mut m, &d).is_ok());
-            assert!(n() == 3 && at(0) == Ev::Value && hook_then_raw(d, 1));
-            reset();
-            let mut s = ser::Serializer::serialize_struct(&mut e, "Nm", len).unwrap();
-            assert!(n() == 1 && at(0) == Ev::Struct(2, len));
-            reset();
-            assert!(SerializeStruct::serialize_field(&mut s, "fld", &d).is_ok());
-            assert!(n() == 3 && at(0) == Ev::Field(3) && hook_then_raw(d, 1));
-            reset();
-            let mut s = ser::Serializer::serialize_struct_variant(&mut e, "Nm", i, "Var", len).unwrap();
-            assert!(n() == 1 && at(0) == Ev::StructVariant(i, len));
-            reset();
-            assert!(SerializeStructVariant::serialize_field(&mut s, "fld", &d).is_ok());
-            assert!(n() == 3 && at(0) == Ev::Field(3) && hook_then_raw(d, 1));
-            kani::cover!(true);
-        }
+    #[kani::proof]
+    fn entry_maps_and_structs() {
+        let mut e = Entry(SinkM);
+        let d: f64 = kani::any();
+        let b: bool = kani::any();
+        let len: usize = kani::any();
+        let olen: Option<usize> = kani::any();
+        let i: u32 = kani::any();
+        reset();
+        let mut m = ser::Serializer::serialize_map(&mut e, olen).unwrap();
+        assert!(n() == 1 && at(0) == Ev::Map(olen));
+        reset();
+        assert!(SerializeMap::serialize_key(&mut m, &b).is_ok());
+        assert!(n() == 3 && at(0) == Ev::Key && at(1) == Ev::KeyHookBool(b) && at(2) == Ev::Bool(b));
+        reset();
+        assert!(SerializeMap::serialize_value(&mut m, &d).is_ok());
+        assert!(n() == 3 && at(0) == Ev::Value && hook_then_raw(d, 1));
+        reset();
+        let mut s = ser::Serializer::serialize_struct(&mut e, "Nm", len).unwrap();
+        assert!(n() == 1 && at(0) == Ev::Struct(2, len));
+        reset();
+        assert!(SerializeStruct::serialize_field(&mut s, "fld", &d).is_ok());
+        assert!(n() == 3 && at(0) == Ev::Field(3) && hook_then_raw(d, 1));
+        reset();
+        let mut s = ser::Serializer::serialize_struct_variant(&mut e, "Nm", i, "Var", len).unwrap();
+        assert!(n() == 1 && at(0) == Ev::StructVariant(i, len));
+        reset();
+        assert!(SerializeStructVariant::serialize_field(&mut s, "fld", &d).is_ok());
+        assert!(n() == 3 && at(0) == Ev::Field(3) && hook_then_raw(d, 1));
+        kani::cover!(true);
     }
 }
